@@ -145,9 +145,10 @@ func (it c09Item) String() string {
 	return fmt.Sprintf("L2 %s P=%d skiprel=%v", it.Block, it.P, it.SkipRel)
 }
 
+// k3Locks is the reduced lock alphabet of three-transaction programs: single
+// requests, two writes, read+write on different accounts, the read->write
+// upgrade.
 func k3Locks(l []l1Req) bool {
-	// reduced lock alphabet for three-transaction programs: single requests,
-	// two writes, read+write on different accounts, the read->write upgrade
 	if len(l) == 1 {
 		return true
 	}
@@ -161,85 +162,91 @@ func k3Locks(l []l1Req) bool {
 	return !a.W && b.W
 }
 
+// k3SmallLocks: single requests and two writes only.
+func k3SmallLocks(l []l1Req) bool {
+	if len(l) == 1 {
+		return true
+	}
+	a, b := l[0], l[1]
+	return a.A != l1World && b.A != l1World && a.A != b.A && a.W && b.W
+}
+
 type c09Phase struct {
 	Name  string
+	Level int
+	P     int
 	Items []c09Item
 }
 
-// c09Plan is the stated finite space per tier; phases are explored in order
-// (ascending preemption bound), so a wall-clock cap leaves the lower bounds
-// complete.
+func l1Phase(name string, p int, skipRel bool, fams ...l1Family) c09Phase {
+	ph := c09Phase{Name: name, Level: 1, P: p}
+	for _, f := range fams {
+		for _, pr := range l1Enumerate(f) {
+			pr := pr
+			ph.Items = append(ph.Items, c09Item{Level: 1, Family: f.Name, Prog: &pr, P: p, SkipRel: skipRel})
+		}
+	}
+	return ph
+}
+
+func l2Phase(name string, p int, blocks []l2Block) c09Phase {
+	ph := c09Phase{Name: name, Level: 2, P: p}
+	for i := range blocks {
+		ph.Items = append(ph.Items, c09Item{Level: 2, Family: "blocks", Block: &blocks[i], P: p, SkipRel: true})
+	}
+	return ph
+}
+
+// c09Plan is the stated finite space per tier. Phases are explored in order; a
+// wall-clock cap stops between/inside phases and the evidence says which
+// phases were completed.
 func c09Plan(tier string) []c09Phase {
-	thorough := tier == "thorough"
-	var l1 []l1Prog
-	var l1fam []string
-	add := func(f l1Family) {
-		ps := l1Enumerate(f)
-		for range ps {
-			l1fam = append(l1fam, f.Name)
-		}
-		l1 = append(l1, ps...)
-	}
-	if !thorough {
-		add(l1Family{Name: "k2-steps<=2", K: 2, MaxSteps: 2, Roots: []int{0}})
-		add(l1Family{Name: "k2-steps<=1-root1-retry", K: 2, MaxSteps: 1, Roots: []int{1}, Retry: true})
-		add(l1Family{Name: "k3-steps<=1-collide", K: 3, MaxSteps: 1, Roots: []int{0}, Collide: true, LockFilter: k3Locks})
-	} else {
-		add(l1Family{Name: "k2-steps<=3-retry", K: 2, MaxSteps: 3, Roots: []int{0, 1}, Retry: true})
-		add(l1Family{Name: "k3-steps<=1-collide", K: 3, MaxSteps: 1, Roots: []int{0, 1}, Collide: true, LockFilter: k3Locks})
-	}
-	var l2 []l2Block
-	if !thorough {
-		l2 = append(l2, l2Blocks(2, 7, 2)...)
-		for _, b := range l2Blocks(3, 5, 2) {
+	k2 := l1Family{Name: "k2-steps<=2", K: 2, MaxSteps: 2, Roots: []int{0}}
+	k2r := l1Family{Name: "k2-steps<=1-root1-retry", K: 2, MaxSteps: 1, Roots: []int{1}, Retry: true}
+	k3one := l1Family{Name: "k3-onestep-collide", K: 3, MaxSteps: 1, NoEmpty: true, Roots: []int{0}, Collide: true, LockFilter: k3SmallLocks}
+	k3 := l1Family{Name: "k3-steps<=1-collide", K: 3, MaxSteps: 1, Roots: []int{0}, Collide: true, LockFilter: k3Locks}
+	sharedOnly := func(bs []l2Block) []l2Block {
+		var out []l2Block
+		for _, b := range bs {
 			if b.shared() {
-				l2 = append(l2, b)
+				out = append(out, b)
 			}
 		}
-	} else {
-		for _, c := range []int{2, 3} {
-			l2 = append(l2, l2Blocks(2, 7, c)...)
-			for _, b := range l2Blocks(3, 7, c) {
-				if b.shared() {
-					l2 = append(l2, b)
-				}
-			}
+		return out
+	}
+	four := func(conc int) []l2Block {
+		a := l2Alphabet
+		return []l2Block{
+			{Conc: conc, Txs: []l2TxSpec{a[0], a[3], a[4], a[2]}},
+			{Conc: conc, Txs: []l2TxSpec{a[3], a[6], a[4], a[1]}},
+			{Conc: conc, Txs: []l2TxSpec{a[4], a[3], a[4], a[6]}},
 		}
 	}
-	l2four := []l2Block{
-		{Conc: 2, Txs: []l2TxSpec{l2Alphabet[0], l2Alphabet[3], l2Alphabet[4], l2Alphabet[2]}},
-		{Conc: 3, Txs: []l2TxSpec{l2Alphabet[0], l2Alphabet[3], l2Alphabet[4], l2Alphabet[2]}},
-		{Conc: 3, Txs: []l2TxSpec{l2Alphabet[3], l2Alphabet[6], l2Alphabet[4], l2Alphabet[1]}},
-		{Conc: 2, Txs: []l2TxSpec{l2Alphabet[4], l2Alphabet[3], l2Alphabet[4], l2Alphabet[6]}},
-	}
-	maxP1, maxP2 := 2, 1
-	if thorough {
-		maxP1, maxP2 = 3, 2
-	}
-	var phases []c09Phase
-	for p := 0; p <= maxP1; p++ {
-		if p == 1 && maxP1 > 1 {
-			continue // bound 1 is subsumed by the next phase at little extra cost
-		}
-		ph := c09Phase{Name: fmt.Sprintf("level1-P%d", p)}
-		for i := range l1 {
-			ph.Items = append(ph.Items, c09Item{Level: 1, Family: l1fam[i], Prog: &l1[i], P: p})
-		}
-		phases = append(phases, ph)
-		if p <= maxP2 {
-			ph2 := c09Phase{Name: fmt.Sprintf("level2-P%d", p)}
-			for i := range l2 {
-				ph2.Items = append(ph2.Items, c09Item{Level: 2, Family: "l2", Block: &l2[i], P: p, SkipRel: true})
-			}
-			for i := range l2four {
-				if p <= 1 {
-					ph2.Items = append(ph2.Items, c09Item{Level: 2, Family: "l2-four", Block: &l2four[i], P: p, SkipRel: true})
-				}
-			}
-			phases = append(phases, ph2)
+	if tier != "thorough" {
+		l2 := append(sharedOnly(l2Blocks(3, 5, 2)), four(2)...)
+		l2 = append(l2, four(3)...)
+		return []c09Phase{
+			l1Phase("L1 k=2 P<=2 (all scheduling points)", 2, false, k2),
+			l1Phase("L1 k=2 retry/empty-root and k=3 P<=2 (release operations not preemptible)", 2, true, k2r, k3one),
+			l2Phase("L2 two-transaction blocks P<=2", 2, l2Blocks(2, 7, 2)),
+			l2Phase("L2 three/four-transaction blocks P<=1", 1, l2),
 		}
 	}
-	return phases
+	var l2a, l2b, l2c []l2Block
+	for _, c := range []int{2, 3} {
+		l2a = append(l2a, l2Blocks(2, 7, c)...)
+		l2b = append(l2b, sharedOnly(l2Blocks(3, 7, c))...)
+		l2b = append(l2b, four(c)...)
+		l2c = append(l2c, sharedOnly(l2Blocks(3, 5, c))...)
+	}
+	return []c09Phase{
+		l1Phase("L1 k=2 P<=3 (all scheduling points)", 3, false, k2, k2r),
+		l1Phase("L1 k=3 P<=2 (release operations not preemptible)", 2, true, k3),
+		l2Phase("L2 two-transaction blocks P<=2", 2, l2a),
+		l2Phase("L2 three/four-transaction blocks P<=1", 1, l2b),
+		l1Phase("L1 k=3 one-step P<=3 (release operations not preemptible)", 3, true, k3one),
+		l2Phase("L2 three-transaction blocks P<=2", 2, l2c),
+	}
 }
 
 // ---------------------------------------------------------------------------
@@ -273,6 +280,28 @@ type c09Runner struct {
 	l1       *l1Env
 	l2       *l2Env
 	deadline time.Time
+	diagnose func(x *explore.Exec) string // narrow description of a difference (set by bodyAndOracle)
+	known    map[string]bool              // signatures listed as known in known_findings.json
+}
+
+// loadKnown reads the committed known-findings list: executions that only show
+// a known signature do not stop the exploration of their program early, so the
+// check keeps looking for *other* violations behind a known one.
+func (r *c09Runner) loadKnown(property string) {
+	r.known = map[string]bool{}
+	b, err := os.ReadFile(filepath.Join(ev.Root(), "known_findings.json"))
+	if err != nil {
+		return
+	}
+	var list []struct{ State, Property, Signature string }
+	if json.Unmarshal(b, &list) != nil {
+		return
+	}
+	for _, k := range list {
+		if k.State == "known" && k.Property == property {
+			r.known[k.Signature] = true
+		}
+	}
 }
 
 func (r *c09Runner) close() {
@@ -301,7 +330,14 @@ func (r *c09Runner) envL2() *l2Env {
 func (r *c09Runner) bodyAndOracle(it c09Item) (body func(x *explore.Exec), want string, got func(x *explore.Exec) (string, string)) {
 	if it.Level == 1 {
 		env := r.envL1()
-		want = l1Sequential(env, it.Prog).key()
+		seq := l1Sequential(env, it.Prog)
+		want = seq.key()
+		r.diagnose = func(x *explore.Exec) string {
+			if run, ok := x.Data.(*l1Run); ok {
+				return l1Diagnose(it.Prog, seq, run.finish())
+			}
+			return "incomplete:" + it.Prog.lockPattern()
+		}
 		body = l1Body(env, it.Prog, false)
 		got = func(x *explore.Exec) (string, string) {
 			run, ok := x.Data.(*l1Run)
@@ -316,6 +352,7 @@ func (r *c09Runner) bodyAndOracle(it c09Item) (body func(x *explore.Exec), want 
 	env := r.envL2()
 	txs := it.Block.build(env)
 	want = env.exec(txs, 1).key()
+	r.diagnose = func(x *explore.Exec) string { return it.Block.String() }
 	body = func(x *explore.Exec) {
 		o := &l2Obs{}
 		x.Data = o
@@ -333,7 +370,7 @@ func c09Pattern(it c09Item) string {
 }
 
 // classify compares one execution with the oracle; "" = fine.
-func c09Classify(it c09Item, out *explore.Outcome, want, got string) (sig, detail string) {
+func c09Classify(it c09Item, out *explore.Outcome, want, got string, diagnose func() string) (sig, detail string) {
 	lvl := fmt.Sprintf("L%d", it.Level)
 	switch {
 	case out.Deadlock:
@@ -347,7 +384,7 @@ func c09Classify(it c09Item, out *explore.Outcome, want, got string) (sig, detai
 		}
 		return lvl + ":panic:" + c09Pattern(it), "panic in a managed thread: " + out.Panic[:minInt(len(out.Panic), 1500)] + " [" + first + "]"
 	case got != want:
-		return lvl + ":differs-from-sequential:" + c09Pattern(it), fmt.Sprintf("concurrent outcome differs from sequential execution\n sequential: %s\n concurrent: %s", want, got)
+		return lvl + ":differs-from-sequential:" + diagnose(), fmt.Sprintf("concurrent outcome differs from sequential execution\n sequential: %s\n concurrent: %s", want, got)
 	}
 	return "", ""
 }
@@ -367,6 +404,7 @@ func (r *c09Runner) run(it c09Item) c09Res {
 	outcomes := map[string]struct{}{}
 	nviol := 0
 	n := 0
+	seenSig := map[string]bool{}
 	opt := explore.Options{MaxPreemptions: it.P, SkipReleasePoints: it.SkipRel, MaxSteps: 50000}
 	opt.Stop = func() bool {
 		n++
@@ -381,14 +419,17 @@ func (r *c09Runner) run(it c09Item) c09Res {
 			orders[ord] = struct{}{}
 		}
 		outcomes[g] = struct{}{}
-		sig, detail := c09Classify(it, out, want, g)
+		sig, detail := c09Classify(it, out, want, g, func() string { return r.diagnose(x) })
 		if sig == "" {
 			return
 		}
-		nviol++
-		if len(res.Viol) >= 2 {
+		if !r.known[sig] {
+			nviol++
+		}
+		if seenSig[sig] || len(res.Viol) >= 4 {
 			return
 		}
+		seenSig[sig] = true
 		// confirm by replaying the recorded decisions before reporting
 		tr := append(explore.Trace(nil), out.Trace...)
 		x2, out2, err := explore.Replay(tr, opt, body)
@@ -397,7 +438,7 @@ func (r *c09Runner) run(it c09Item) c09Res {
 			return
 		}
 		g2, _ := got(x2)
-		if sig2, _ := c09Classify(it, out2, want, g2); sig2 != sig {
+		if sig2, _ := c09Classify(it, out2, want, g2, func() string { return r.diagnose(x2) }); sig2 != sig {
 			res.Harness = fmt.Sprintf("violation %q did not reproduce on replay (got %q)", sig, sig2)
 			return
 		}
@@ -419,6 +460,7 @@ func c09ShardMain(t *testing.T) {
 	plan := c09Plan(tier)
 	items := plan[phase].Items
 	r := &c09Runner{deadline: time.UnixMilli(dl)}
+	r.loadKnown("C09")
 	defer r.close()
 	for {
 		i, ok := explore.NextItem()
@@ -617,7 +659,8 @@ func TestVerifC09(t *testing.T) {
 	total.BlockedByKind = map[string]int64{}
 	var harness []string
 	exhaustive := true
-	boundDone := map[int]int{1: -1, 2: -1}
+	phaseDone := map[string]interface{}{}
+	minBound := map[int]int{1: 99, 2: 99}
 	type famStat struct {
 		Programs, Conflicting, BlockedProgs int
 		Execs                               int64
@@ -632,7 +675,6 @@ func TestVerifC09(t *testing.T) {
 			exhaustive = false
 			break
 		}
-		level := ph.Items[0].Level
 		done := make([]bool, len(ph.Items))
 		skipped := 0
 		// biggest programs first is not known a priori; keep enumeration order
@@ -654,7 +696,7 @@ func TestVerifC09(t *testing.T) {
 			done[res.Idx] = true
 			total.Merge(res.Res)
 			r.Eval(int(res.Res.Executions))
-			if !res.Res.Complete {
+			if !res.Res.Complete && len(res.Viol) == 0 {
 				skipped++
 			}
 			if res.Harness != "" {
@@ -710,7 +752,10 @@ func TestVerifC09(t *testing.T) {
 			r.Cap(fmt.Sprintf("phase %s: %d of %d items not (fully) explored before the wall-clock budget", ph.Name, skipped, len(ph.Items)))
 			break
 		}
-		boundDone[level] = ph.Items[0].P
+		phaseDone[ph.Name] = map[string]interface{}{"preemption_bound_completed": ph.P, "items": len(ph.Items)}
+		if ph.P < minBound[ph.Level] {
+			minBound[ph.Level] = ph.P
+		}
 	}
 
 	summary, races, mismatch, err := waitRace()
@@ -730,8 +775,15 @@ func TestVerifC09(t *testing.T) {
 		r.Sanity(false, "%s", h)
 	}
 	r.Set("executions", total.Executions)
-	r.Set("preemption_bound_completed_level1", boundDone[1])
-	r.Set("preemption_bound_completed_level2", boundDone[2])
+	r.Set("phases_completed", phaseDone)
+	for lv, b := range minBound {
+		if b == 99 {
+			b = -1
+		}
+		// the smallest bound among the completed phases of that level: every
+		// explored program/block of the level is complete at least to that bound
+		r.Set(fmt.Sprintf("preemption_bound_completed_level%d", lv), b)
+	}
 	r.Set("executions_with_a_blocked_thread", total.BlockedExecutions)
 	r.Set("executions_blocked_by_kind", total.BlockedByKind)
 	r.Set("executions_by_preemptions", total.ByPreemptions)
@@ -785,7 +837,7 @@ func c09Replay(r *ev.Run) {
 	}
 	g, _ := got(x)
 	fmt.Printf("REPLAY %s\n sequential: %s\n concurrent: %s\n deadlock=%v panic=%v\n", c.Item, want, g, out.Deadlock, out.Panic != "")
-	if sig, detail := c09Classify(c.Item, out, want, g); sig != "" {
+	if sig, detail := c09Classify(c.Item, out, want, g, func() string { return rr.diagnose(x) }); sig != "" {
 		r.Violation(sig, c.Item.String()+"\n"+detail, c)
 	}
 	r.Sample(map[string]interface{}{"replayed": c.Item.String()})
